@@ -42,11 +42,27 @@ Ops(bytes, items) ==
        ELSE IF r.args # <<>> THEN [ok |-> FALSE, err |-> "operands without an operator at the end", at |-> 0, ops |-> <<>>]
        ELSE [ok |-> TRUE, err |-> "", at |-> 0, ops |-> r.ops]
 
-\* the StrictReader on a content stream: [ok, err, at, ops]
-ReadOps(bytes) ==
-    LET rd == Read(bytes, TRUE) IN
+\* the StrictReader on a content stream: [ok, err, at, ops].  vb = TRUE (classifier only): raw end-of-line
+\* markers inside literal strings are kept as written instead of being read as LF (7.3.4.2)
+ReadOpsV(bytes, vb) ==
+    LET rd == ReadV(bytes, TRUE, vb) IN
     IF ~rd.ok THEN [ok |-> FALSE, err |-> rd.err, at |-> rd.at, ops |-> <<>>]
     ELSE Ops(bytes, rd.items)
+
+ReadOps(bytes) == ReadOpsV(bytes, FALSE)
+
+\* classifier: facts about the first inline image of a content stream, as the StrictReader sees it
+InlineFacts(bytes) ==
+    LET rd == Read(bytes, TRUE)
+        imgs == SelectSeq(rd.items, LAMBDA it : it.it = "img")
+    IN IF ~rd.ok \/ imgs = <<>> THEN [n |-> 0]
+       ELSE LET it == imgs[1]
+                get(ab, full) == IF Has(it.d, ab) THEN it.d[ab] ELSE IF Has(it.d, full) THEN it.d[full] ELSE ONull
+                cs == get(InKeyCS, InKeyColorSpace)
+                bpc == get(InKeyBPC, InKeyBits)
+            IN [n |-> Len(imgs), cs |-> IF cs.k = "name" THEN cs.v ELSE <<>>, bpc |-> IF IntSmall(bpc) THEN IntVal(bpc) ELSE 0,
+                len |-> it.re - it.rs + 1, first |-> IF it.re >= it.rs THEN bytes[it.rs] ELSE 0 - 1, idws |-> bytes[it.rs - 1],
+                wsbefore |-> {bytes[i] : i \in 1..(it.rs - 1)} \cap {0, 12} # {}]
 
 -----------------------------------------------------------------------------
 (* JSON (harness wire format) -> operations: [{op: bytes, args: [obj...]}...] *)
@@ -95,6 +111,9 @@ JudgeAgainst(opsDoc, rd) ==
     ELSE Compare(opsDoc, rd.ops, ArgMatches)
 
 JudgeDecode(opsDoc, bytes) == JudgeAgainst(opsDoc, ReadOps(bytes))
+
+\* classifier: are the operations what the bytes say when end-of-line markers in literal strings are kept verbatim?
+VerbatimEolExplains(opsDoc, bytes) == JudgeAgainst(opsDoc, ReadOpsV(bytes, TRUE)).v = "ok"
 
 JudgeSame(opsA, opsB) == Compare(opsA, opsB, DocSame)
 =============================================================================
